@@ -857,6 +857,9 @@ func (s *Subscription) reaccess(t *rescache.Throttle) {
 	}
 
 	if s.queueFlag != 0 {
+		// The access request is deferred until the queue is released, but
+		// the cached access must not be used in the meantime.
+		s.access = nil
 		s.flags |= flagReaccess
 		return
 	}
